@@ -117,7 +117,7 @@ fn supervisor(args: &Args) -> i32 {
     let mut child = cmd.spawn().unwrap_or_else(|e| die(&format!("cannot spawn worker: {}", e)));
     let limit = vlib::engine::env_u64(
         "VERIF_TIMEOUT_S",
-        if args.tier == Tier::Quick { 1500 } else { 6 * 3600 },
+        if args.tier == Tier::Quick { 3600 } else { 8 * 3600 },
     );
     let t0 = Instant::now();
     let status = loop {
@@ -424,7 +424,10 @@ fn worker(prop: &props::PropDef, args: &Args) -> i32 {
                     return;
                 }
                 let now = vlib::engine::PROGRESS.load(std::sync::atomic::Ordering::Relaxed);
-                if now != last.0 {
+                if vlib::engine::EXTERNAL.load(std::sync::atomic::Ordering::SeqCst) > 0 {
+                    // a thread waits for a compiler / cargo / a variant binary: not a stall
+                    last = (now, Instant::now());
+                } else if now != last.0 {
                     last = (now, Instant::now());
                 } else if last.1.elapsed() > Duration::from_secs(stall) {
                     eprintln!("vcheck: no case finished for {} s: a call does not return", stall);
